@@ -20,6 +20,7 @@ def run(ctx):
     rule_verify(ctx, repo)
     rule_pubkey(ctx, repo)
     rule_wif(ctx, repo)
+    rule_no_self_mutation(ctx, repo)
     r = ctx.rule('C13.P1', 'the secret-key version byte is read from the selected chain at call time', engine='OWN', floor=1)
     common.rule_call_time_params(r, repo, files={'bitcoin/wallet.py', 'bitcoin/core/key.py'})
     ctx.not_decided += ['k*G, the ECDSA verification equation, strict DER of libcrypto output: delegated to libcrypto, not applicable to this family',
@@ -75,17 +76,17 @@ def rule_low_s(ctx, repo):
             rets = [norm(n_.value) for k, n_, f in mf.exits if k == 'return' and 'low' in f]
             r.check(all(a in rets for a in arg) and arg, 'sign:tested-value-returned', fi.site, 'the tested signature is the returned one', 'tested %s but returned %s' % (arg, rets))
         else:
-            # sign_compact: `sig` is assigned in both branches of the low-S test
-            ifs = [n for n in walk_no_nested(fi.node) if isinstance(n, ast.If) and 'IsLowDERSignature' in norm(n.test)]
-            ok = len(ifs) == 1 and [norm(s) for s in ifs[0].body][-1:] == ['sig = mb_sig.raw[:sig_size0.value]'] and [norm(s) for s in ifs[0].orelse][-1:] == ['sig = self.signature_to_low_s(mb_sig.raw[:sig_size0.value])']
-            r.check(ok, 'sign_compact', fi.site, 'low-S tested, otherwise normalised', 'sign_compact does not put its signature through the low-S test / normalisation')
+            # sign_compact: on every path to a return the DER signature passed the low-S test or was normalised
+            rets_ = [(k, n_, f) for k, n_, f in mf.exits if k == 'return']
+            tested = [norm(c.args[0]) for c in common.iter_calls(fi.node) if norm(c.func).endswith('IsLowDERSignature') and c.args]
+            ok = bool(rets_) and all('low' in f for k, n_, f in rets_) and len(tested) == 1
+            r.check(ok, 'sign_compact', fi.site, 'low-S tested, otherwise normalised', 'sign_compact does not put its signature through the low-S test / normalisation on every path')
     tl = repo.get_function(K + 'CECKey.signature_to_low_s')
     gs = [norm(n.test) for n in walk_no_nested(tl.node) if isinstance(n, ast.If)]
     subs = [norm(c) for c in common.iter_calls(tl.node) if norm(c.func) == '_ssl.BN_sub']
-    r.check('_ssl.BN_cmp(der_sig.s, halforder) > 0' in gs and subs == ['_ssl.BN_sub(der_sig.s, order, der_sig.s)'], 'normalisation', tl.site, 's > n/2 -> s = n - s', 'normalisation is %s / %s' % (gs, subs))
+    r.check(any(equiv(g_, '_ssl.BN_cmp(der_sig.s, halforder) > 0') is True for g_ in gs) and subs == ['_ssl.BN_sub(der_sig.s, order, der_sig.s)'], 'normalisation', tl.site, 's > n/2 -> s = n - s', 'normalisation is %s / %s' % (gs, subs))
     ck = repo.get_function(W + 'CKey.sign')
-    rets = [norm(n.value) for n in walk_no_nested(ck.node) if isinstance(n, ast.Return)]
-    r.check(rets == ['self._cec_key.sign(%s)' % ck.params[1]], 'CKey.sign', ck.site, 'delegates to CECKey.sign', 'CKey.sign returns %s' % rets)
+    common.verdict3(r, 'CKey.sign', ck.site, repo, ck, common.returned_value(ck), 'self._cec_key.sign(%s)' % ck.params[1], 'CKey.sign returns')
 
 
 def rule_constants(ctx, repo):
@@ -100,10 +101,41 @@ def rule_constants(ctx, repo):
     for n in walk_no_nested(fi.node):
         if isinstance(n, ast.Assign) and norm(n.targets[0]) == 'max_mod_half_order':
             tbl = repo.fold(n.value, fi.module)
+    if tbl is None:
+        # the table may be spelled inline (or come from a module constant that the pre-pass folded in): it is the second
+        # operand of the upper-bound comparison
+        for c in common.iter_calls(fi.node):
+            if norm(c.func) == 'CompareBigEndian' and len(c.args) == 2:
+                v_ = repo.fold(c.args[1], fi.module)
+                if isinstance(v_, (list, tuple)) and len(v_) == 32:
+                    tbl = list(v_)
     r.check(isinstance(tbl, list) and bytes(tbl) == spec.SECP256K1_HALF_ORDER, 'half-order', fi.site, 'n/2 of secp256k1',
             'the half-order table is %s; secp256k1 n/2 = %s' % (bytes(tbl).hex() if isinstance(tbl, list) and all(isinstance(x, int) and 0 <= x < 256 for x in tbl) else tbl, spec.SECP256K1_HALF_ORDER.hex()))
-    rets = [norm(n.value) for n in walk_no_nested(fi.node) if isinstance(n, ast.Return)]
-    r.check(rets == ['CompareBigEndian(s_val, [0]) > 0 and CompareBigEndian(s_val, max_mod_half_order) <= 0'], 'low-s-bounds', fi.site, '0 < s <= n/2', 'low-S test returns %s' % rets)
+    # the predicate's final answer as one formula over its two comparisons (whatever the control flow spells)
+    last = [s_ for s_ in fi.node.body if isinstance(s_, (ast.Return, ast.If))]
+    tail = []
+    for s_ in reversed(fi.node.body):
+        if isinstance(s_, (ast.Return, ast.If)) and not any(isinstance(x, ast.Raise) for x in ast.walk(s_)):
+            tail.insert(0, s_)
+        else:
+            break
+    fe = common.return_expr(ast.Module(body=tail, type_ignores=[])) if tail else None
+    if fe is None:
+        r.undecided('low-s-bounds', fi.site, 'the final answer of IsLowDERSignature is not a tree of tests and returns')
+    else:
+        ft = norm(fe)
+        for n_ in ast.walk(fe):
+            pass
+        import re as _re
+        ft2 = _re.sub(r'CompareBigEndian\(s_val, \[0\]\)', 'cmp_zero', ft)
+        ft2 = _re.sub(r'CompareBigEndian\(s_val, [^()]*(\([^()]*\))?[^()]*\)', 'cmp_half', ft2)
+        v_ = equiv(ft2, 'cmp_zero > 0 and cmp_half <= 0')
+        if v_ is True:
+            r.ok('low-s-bounds', fi.site, '0 < s <= n/2')
+        elif v_ is False:
+            r.violated('low-s-bounds', fi.site, 'low-S test answers `%s`; reference: 0 < s <= n/2, i.e. CompareBigEndian(s, [0]) > 0 and CompareBigEndian(s, n/2) <= 0' % ft[:160])
+        else:
+            r.undecided('low-s-bounds', fi.site, 'low-S test answers `%s`' % ft[:160])
     # S is located through the DER length bytes
     defs = {norm(n.targets[0]): norm(n.value) for n in walk_no_nested(fi.node) if isinstance(n, ast.Assign) and len(n.targets) == 1}
     sig = fi.params[0]
@@ -142,8 +174,25 @@ def rule_verify(ctx, repo):
 def rule_pubkey(ctx, repo):
     r = ctx.rule('C13.K1', 'CPubKey validity flags: fully valid iff libcrypto parsed the encoding; compressed iff 33 bytes', engine='RULES', floor=3)
     fi = repo.get_function(K + 'CPubKey.__new__')
-    sets = [norm(n) for n in walk_no_nested(fi.node) if isinstance(n, ast.Assign)]
-    r.check('self.is_fullyvalid = _cec_key.set_pubkey(self) is not None' in sets, 'is_fullyvalid', fi.site, 'o2i_ECPublicKey returned non-NULL', 'is_fullyvalid is set by %s' % [s for s in sets if 'fullyvalid' in s])
+    sets = [n for n in walk_no_nested(fi.node) if isinstance(n, ast.Assign) and norm(n.targets[0]) == 'self.is_fullyvalid']
+    kv = [norm(n.value) for n in walk_no_nested(fi.node) if isinstance(n, ast.Assign) and norm(n.targets[0]) == 'self._cec_key']
+    keyname = kv[0] if kv else '_cec_key'
+    if len(sets) == 1:
+        ms_ = [common.value_match(repo, fi, sets[0].value, '%s.set_pubkey(self) is not None' % k_) for k_ in {keyname, '_cec_key', 'self._cec_key'}]
+        if 'same' in ms_:
+            r.ok('is_fullyvalid', fi.site, 'o2i_ECPublicKey returned non-NULL')
+        elif 'set_pubkey' in norm(common.resolved(fi, sets[0].value, repo)):
+            r.violated('is_fullyvalid', common.site_of(fi, sets[0]), 'is_fullyvalid is set by `%s`; it must be: the key object accepted the encoding (set_pubkey(self) is not None)' % norm(common.resolved(fi, sets[0].value, repo))[:120])
+        else:
+            r.undecided('is_fullyvalid', common.site_of(fi, sets[0]), 'is_fullyvalid is set by `%s`' % norm(sets[0].value)[:100])
+    else:
+        r.violated('is_fullyvalid', fi.site, 'is_fullyvalid is assigned %d times' % len(sets))
+    # defaults: a mutable object built in a default argument is shared by every call
+    for pn, d in fi.defaults().items():
+        if isinstance(d, (ast.Call, ast.List, ast.Dict, ast.Set)):
+            r.violated('default:%s' % pn, common.site_of(fi, d), 'CPubKey.__new__ builds its default `%s=%s` once, at import: every public key constructed without an explicit key object shares it, and the last set_pubkey() wins for all of them' % (pn, norm(d)))
+        else:
+            r.ok('default:%s' % pn, fi.site, 'default %s' % norm(d))
     sp = repo.get_function(K + 'CECKey.set_pubkey')
     rets = [norm(n.value) for n in walk_no_nested(sp.node) if isinstance(n, ast.Return)]
     r.check(len(rets) == 1 and rets[0].startswith('_ssl.o2i_ECPublicKey('), 'set_pubkey', sp.site, 'returns the o2i_ECPublicKey result', 'set_pubkey returns %s' % rets)
@@ -155,13 +204,43 @@ def rule_pubkey(ctx, repo):
     r.check(rt == 'ctypes.c_void_p', 'set_pubkey:restype', km.relpath + ':0', 'pointer result (None when NULL)', 'o2i_ECPublicKey.restype is %s' % rt)
     for nm, want in (('is_compressed', 'len(self) == 33'), ('is_valid', 'len(self) > 0')):
         f = repo.functions.get(K + 'CPubKey.' + nm)
-        rets = [norm(n.value) for n in walk_no_nested(f.node) if isinstance(n, ast.Return)] if f else []
-        r.check(rets == [want], nm, f.site if f else '', want, '%s returns %s' % (nm, rets))
+        e_ = common.return_expr(f, inline_locals=True) if f else None
+        v_ = equiv_folded(e_, repo, f.module, want, cls=f.cls) if e_ is not None else None
+        if v_ is True:
+            r.ok(nm, f.site, want)
+        elif v_ is False:
+            r.violated(nm, f.site, '%s returns `%s`; reference `%s`' % (nm, norm(e_), want))
+        else:
+            r.undecided(nm, f.site if f else '', '%s returns `%s`' % (nm, norm(e_) if e_ is not None else None))
     sc = repo.get_function(K + 'CECKey.set_compressed')
-    forms = {norm(n.test): [norm(s) for s in n.body] for n in walk_no_nested(sc.node) if isinstance(n, ast.If)}
     c = repo.get_class(K + 'CECKey')
-    r.check(repo.class_attr_value(c, 'POINT_CONVERSION_COMPRESSED') == 2 and repo.class_attr_value(c, 'POINT_CONVERSION_UNCOMPRESSED') == 4 and forms.get('compressed') == ['form = self.POINT_CONVERSION_COMPRESSED'],
-            'conversion-form', sc.site, 'compressed = 2, uncompressed = 4', 'conversion forms: %s' % forms)
+    # the form handed to libcrypto for compressed=True / False, by tracing both values of the flag
+    from ..table import Tracer
+    got = {}
+    for flag in (True, False):
+        tr = Tracer(repo, sc.module, cls=c)
+        ps = tr.trace(sc.node.body, {sc.params[1]: flag})
+        if len(ps) == 1:
+            for c_ in [x for s_ in ps[0].stmts() for x in ast.walk(s_) if isinstance(x, ast.Call) and norm(x.func) == '_ssl.EC_KEY_set_conv_form']:
+                a_ = c_.args[1]
+                if isinstance(a_, ast.IfExp):
+                    a_ = a_.body if tr.tri(a_.test, ps[0]) else a_.orelse
+                got[flag] = repo.fold(a_, sc.module, cls=c, env=ps[0].env)
+    r.check(got == {True: 2, False: 4}, 'conversion-form', sc.site, 'compressed = 2, uncompressed = 4', 'conversion forms handed to EC_KEY_set_conv_form: %s' % got)
+
+
+def rule_no_self_mutation(ctx, repo):
+    r = ctx.rule('C13.K2', 'signing, recovering and verifying never reconfigure the key they are called on', engine='OWN', floor=4)
+    setters = ('set_compressed', 'set_secretbytes', 'set_privkey', 'set_pubkey')
+    for name in ('sign', 'sign_compact', 'verify', 'get_pubkey', 'get_privkey', 'signature_to_low_s'):
+        fi = repo.functions.get(K + 'CECKey.' + name)
+        if fi is None:
+            continue
+        bad = [c for c in common.iter_calls(fi.node) if isinstance(c.func, ast.Attribute) and c.func.attr in setters and norm(c.func.value) == 'self']
+        bad += [n for n in walk_no_nested(fi.node) if isinstance(n, ast.Call) and norm(n.func) in ('_ssl.EC_KEY_set_conv_form', '_ssl.EC_KEY_set_private_key', '_ssl.EC_KEY_set_public_key')
+                and n.args and norm(n.args[0]) == 'self.k']
+        r.check(not bad, name, common.site_of(fi, bad[0]) if bad else fi.site, 'does not reconfigure self',
+                'CECKey.%s calls `%s` on the key itself: after the call the key derives a different public-key encoding (an uncompressed key answers with the 33-byte form)' % (name, norm(bad[0])[:60] if bad else ''))
 
 
 def rule_wif(ctx, repo):
@@ -170,7 +249,8 @@ def rule_wif(ctx, repo):
     fs = ci.methods['from_secret_bytes']
     sec, comp = fs.params[1], fs.params[2]
     calls = [c for c in common.iter_calls(fs.node) if norm(c.func) == 'cls.from_bytes']
-    ok = len(calls) == 1 and norm(calls[0].args[0]) == "%s + (b'\\x01' if %s else b'')" % (sec, comp) and norm(calls[0].args[1]) == "bitcoin.params.BASE58_PREFIXES['SECRET_KEY']"
+    ok = len(calls) == 1 and common.value_match(repo, fs, calls[0].args[0], "%s + (b'\\x01' if %s else b'')" % (sec, comp)) == 'same' \
+        and common.value_match(repo, fs, calls[0].args[1], "bitcoin.params.BASE58_PREFIXES['SECRET_KEY']") == 'same'
     r.check(ok, 'writer', fs.site, "secret + (01 if compressed), version of the selected chain", 'WIF payload is built by %s' % [norm(c) for c in calls])
     init = ci.methods['__init__']
     kc = [c for c in common.iter_calls(init.node) if norm(c.func) == 'CKey.__init__']
@@ -178,7 +258,7 @@ def rule_wif(ctx, repo):
         r.undecided('reader', init.site, 'no CKey.__init__(self, secret, compressed) call')
     else:
         a_sec, a_comp = norm(kc[0].args[1]), kc[0].args[2]
-        r.check(a_sec == 'self[0:32]', 'reader:secret', common.site_of(init, kc[0]), 'first 32 bytes', 'the secret is taken as `%s`' % a_sec)
+        common.verdict3(r, 'reader:secret', common.site_of(init, kc[0]), repo, init, kc[0].args[1], 'self[0:32]', 'the secret')
         t = canon_guard(a_comp, repo, init.module)
         if equiv(t, 'len(self) > 32 and self[32] == 1'):
             r.ok('reader:compressed', common.site_of(init, kc[0]), 'byte 32 present and equal to 01')
@@ -192,12 +272,21 @@ def rule_wif(ctx, repo):
     r.check(ok and exc == ['CBitcoinSecretError'], 'reader:version', init.site, 'another chain\'s WIF is refused with CBitcoinSecretError', 'version check is %s / %s' % ([g for g, n in gs], exc))
     ck = repo.get_function(W + 'CKey.__init__')
     texts = [norm(s) for s in ck.node.body]
-    ok = texts == ['self._cec_key = bitcoin.core.key.CECKey()', 'self._cec_key.set_secretbytes(secret)', 'self._cec_key.set_compressed(compressed)',
-                   'self.pub = bitcoin.core.key.CPubKey(self._cec_key.get_pubkey(), self._cec_key)']
+    # order of effects on the fresh key object, whatever local names it: new key, secret, conversion form, then the public key
+    alias = {'self._cec_key'}
+    for s_ in ck.node.body:
+        if isinstance(s_, ast.Assign) and isinstance(s_.value, ast.Call) and norm(s_.value.func).endswith('CECKey') and not s_.value.args:
+            alias |= {norm(t_) for t_ in s_.targets}
+    seq = []
+    for s_ in ck.node.body:
+        for c_ in [x for x in ast.walk(s_) if isinstance(x, ast.Call) and isinstance(x.func, ast.Attribute) and norm(x.func.value) in alias]:
+            seq.append((c_.func.attr, [norm(a) for a in c_.args]))
+    ok = [x for x in seq if x[0] in ('set_secretbytes', 'set_compressed', 'get_pubkey')] == [('set_secretbytes', ['secret']), ('set_compressed', ['compressed']), ('get_pubkey', [])] \
+        and any(norm(s_.targets[0]) == 'self.pub' and 'CPubKey(' in norm(s_.value) for s_ in ck.node.body if isinstance(s_, ast.Assign))
     r.check(ok, 'key-construction', ck.site, 'secret -> EC key, conversion form set before the public key is taken', 'CKey.__init__ does %s' % texts)
     ss = repo.get_function(K + 'CECKey.set_secretbytes')
     gs2 = [canon_guard(n.test, repo, ss.module) for n in walk_no_nested(ss.node) if isinstance(n, ast.If) and flow.always_raises(n.body)]
-    r.check('len(secret) != 32' in gs2, 'secret-length', ss.site, 'exactly 32 bytes', 'secret length rule: %s' % gs2)
+    r.check(canon_text('len(secret) != 32') in gs2, 'secret-length', ss.site, 'exactly 32 bytes', 'secret length rule: %s' % gs2)
     m = repo.get_module('bitcoin')
     for name, ch in sorted(spec.CHAINS.items()):
         c = m.classes.get(ch['class'])
